@@ -106,6 +106,9 @@ def gen_lots(rng, name, off, n_lots=None):
     y = 2019 + rng.below(2)
     t = day_of(date(y, rng.range(1, 4), rng.range(1, 28))) * DAY + rng.range(8, 20) * 3600_000_000
     prices = rng.shuffle([10 * U, 50 * U, 200 * U, 1000 * U, 3000 * U, 20 * U][:n + 1])
+    if rng.chance(60):      # two lots at exactly the same price (stablecoins, split fills): the tie is broken by acquisition time
+        a, b = rng.below(n), rng.below(n)
+        prices[a] = prices[b]
     ins, outs = [], []
     for k in range(n):
         t += rng.range(3, 60) * DAY + rng.below(3600) * 1_000_000
